@@ -89,9 +89,7 @@ Definition elem_is_valid (sub : ascii) (c : ectx) (e : elem) (parent_comp : opti
       if empty then
         if usage_is (e_usage e) "N" || usage_is (e_usage e) "S" then Some (Ok (true, pre))
         else if usage_is (e_usage e) "R" then
-          if negb (e_seq e =? 1)%Z || match parent_comp with None => true | Some (pu, _) => usage_is pu "R" end
-          then Some (Ok (false, pre ++ [mk_ev refdes "1" (l "Mandatory data element " ++ nm ++ l " is missing") None]))
-          else Some (Ok (true, pre))
+          Some (Ok (false, pre ++ [mk_ev refdes "1" (l "Mandatory data element " ++ nm ++ l " is missing") None]))
         else None
       else None in
     match early with
